@@ -82,4 +82,18 @@ def klpq2Broadcast (w : List (List α)) : α :=
   let z := w.map lse
   (w.map fun row => ((row.zip z).map fun xz => Trans.exp (xz.1 - xz.2) * xz.1).sum).sum
 
+/-- `ELBO._call` with `score=True` (a score-function gradient surrogate, not an estimate of `log Z`):
+`((log p − log q).detach() · log q).mean()` over every sample -/
+def elboScore (logp logq : List α) : α :=
+  mean ((logp.zip logq).map fun pq => (pq.1 - pq.2) * pq.2)
+
+/-- `KLpqImportance._call` (a gradient surrogate): `w = exp(log_w − max log_w)`, `−Σ (w / Σ w) · log q`
+over every sample -/
+def klpqImportance (logp logq : List α) : α :=
+  let lw := (logp.zip logq).map fun pq => pq.1 - pq.2
+  let m := maxL lw
+  let w := lw.map fun x => Trans.exp (x - m)
+  let tot := w.sum
+  0 - ((w.zip logq).map fun wq => wq.1 / tot * wq.2).sum
+
 end TT.C14
